@@ -394,7 +394,7 @@ def main(chk: Check):
         r = chk.coq_eval("entry", IMPORTS, "entry", cases,
                          ["mismatches (run_entry pool) cases", "mismatches (run_entry_orig pool) cases",
                           "where_ (spec_entry_bad false pool) cases", "where_ (spec_entry_bad true pool) cases",
-                          "where_ (revs_bad pool) cases"], shard=300, preamble=pool_def)
+                          "where_ (versions_bad pool) cases"], shard=300, preamble=pool_def)
         if r is not None:
             fixed_bad, orig_bad, spec_fixed, spec_orig, revs = (set(x) for x in r)
             pinned_listed = all(c in chk.known for c in PINNED_ONLY)
@@ -409,8 +409,8 @@ def main(chk: Check):
                 spec_bad.append(i)
             for i in sorted(revs)[:3]:
                 chk.violation("correspondence",
-                              {"what": "premise rev_compat of affected_is_spec_partial fails on a generated case "
-                                       "(within one version, versions are not ordered by revision)",
+                              {"what": "premise versions_valid of affected_is_spec_partial fails on a generated case "
+                                       "(a version accepted by the CPV parser is not a valid version of C01's grammar)",
                                "input": cases[i][0]}, no_input=True)
 
     # ---- report
